@@ -177,6 +177,41 @@ def set_algebra_history(ctx, srv, label='setalg'):
     return n
 
 
+def list_shape_history(ctx, srv, label='listshapes'):
+    """Commands whose result depends on WHERE equal elements sit: LREM with every count from -3 to 3 (and far beyond) on every
+    list over {x, y} up to length 5 (adjacent repetitions, runs at either end, no occurrence at all), LRANGE / LINDEX / LSET /
+    LTRIM index forms on the survivors, LPOP / RPOP until the key goes away."""
+    import itertools
+    s = fresh_session(ctx, srv, label)
+    n = 0
+    try:
+        cid = s.open()
+        s.cmd(cid, [b'FLUSHALL'])
+        maxlen = 4 if ctx.quick else 5
+        for length in range(1, maxlen + 1):
+            for shape in itertools.product([b'x', b'y'], repeat=length):
+                for count in (1, 2, 3, -1, -2, -3, 0, 9, -9):
+                    if ctx.quick and length == maxlen and count in (9, -9, 3, -3) and (n % 2):
+                        n += 1
+                        continue
+                    cid = ensure_conn(s, cid)
+                    s.cmd(cid, [b'DEL', b'L'])
+                    s.cmd(cid, [b'RPUSH', b'L'] + list(shape))
+                    s.cmd(cid, [b'LREM', b'L', str(count).encode(), b'x'])
+                    s.cmd(cid, [b'LRANGE', b'L', b'0', b'-1'])
+                    s.cmd(cid, [b'EXISTS', b'L'])
+                    n += 1
+        cid = ensure_conn(s, cid)
+        dump_db(s, cid)
+    except ServerDied:
+        pass
+    s.close_all()
+    ctx.validate(s.trace, label=label)
+    if not srv.alive():
+        srv.restart()
+    return n
+
+
 LOOSE = [b'+%d', b'00%d', b'-0']          # written forms Redis' string2ll refuses; %d is filled with the intended value
 
 
@@ -766,7 +801,13 @@ class ExpiryGen(Pool):
         r = self.rnd
         k = self.key()
         c = r.randrange(60)
-        if c < 4: return ('sleep', r.choice([5, 20, 40, 60, 100]))
+        if c < 4:
+            if r.random() < 0.25:
+                # a script without effect, now and then one that ENDS IN AN ERROR: whatever a script run sets up around itself (a frozen
+                # clock, a cached state, a selected database) must be undone on every way out
+                return [b'EVAL', r.choice([b"error('boom')", b"return redis.call('NOSUCHCOMMAND')", b"return redis.call('INCR')", b"return 1",
+                                           b"return redis.pcall('NOSUCHCOMMAND')", b"local x = nil; return x.y", b"return redis.call('GET', 'no', 'such', 'arity')"]), b'0']
+            return ('sleep', r.choice([5, 20, 40, 60, 100]))
         if c == 4: return ('sleep', r.choice([300, 600]))
         if c < 8: return [b'SET', k, b'v', b'PX', self.ttl_ms()]
         if c < 10: return [b'PEXPIRE', k, self.ttl_ms()]
